@@ -77,11 +77,16 @@ fn handle(req: &Json) -> Json {
         "canon_b": tj(cb.inner()),
         "canon2_a": tj(cca.inner()),
         "canon_eq_ab": ca == cb,
-        "render_a": {"err": err, "type": full, "inferred": inferred},
+        "render_a": {"err": err.clone(), "type": full.clone(), "inferred": inferred},
     });
     if wf {
         // What the Rust grammar (syn) reads back from the rendered source.
         out["reparse_a"] = reparse::reparse(&err).unwrap_or(Json::Null);
+        // ... and from the rendering used for code generation (`render_type`, the input of `syn_type`).
+        out["reparse_type_a"] = match &full {
+            Some(s) => reparse::reparse(s).unwrap_or(Json::Null),
+            None => Json::Null,
+        };
     }
     out
 }
